@@ -193,12 +193,15 @@ def oracle(ck: Check, tier, deep):
         yy, xx = np.mgrid[:r, :c]
         im = np.exp(-((yy - r / 2 - rng.uniform(-1, 1)) ** 2 + (xx - c / 2 - rng.uniform(-1, 1)) ** 2) / 6.0)
         origin = origins[it % len(origins)]
+        dt = [None, np.uint8, None, np.int32, np.uint16][it % 5]        # integer images must be centred as their float64 copies
+        if dt is not None:
+            im = np.round(im * 200).astype(dt)
         crop = ["maintain_size", "valid_region", "maintain_data"][it % 3]
         copts = dict(crop=crop) if origin != "none" else dict()
         aopts = [dict(), dict(dr=0.25), dict(dt=0.1)][it % 3]
         topts = [dict(), dict(dr=2.0)][it % 2]
         method = ["hansenlaw", "two_point", "daun"][it % 3]
-        ck.count(("S.route", str(origin), crop, it % 6), suite="S.route")
+        ck.count(("S.route", str(origin), crop, it % 6, str(dt)), suite="S.route")
         seen = {}
         real_center, real_ai = centermod.center_image, vmimod.angular_integration_3D
 
@@ -211,7 +214,7 @@ def oracle(ck: Check, tier, deep):
             return real_ai(IM, **kw)
         sig = dict(site="Transform", clause="routing")
         rep = dict(shape=[r, c], origin=str(origin), center_options=copts, angular_integration_options=aopts,
-                   transform_options=topts, method=method)
+                   transform_options=topts, method=method, dtype=str(np.dtype(dt)) if dt else "float64", image=np.asarray(im).tolist())
         stub = Stub()
         try:
             with patched("abel.tools.center", "center_image", rec_center), \
@@ -220,7 +223,8 @@ def oracle(ck: Check, tier, deep):
                       angular_integration=True, angular_integration_options=dict(aopts))
             with warnings.catch_warnings():
                 warnings.simplefilter("ignore")
-                want_im = im if origin == "none" else real_center(im, origin, **copts)
+                imf = np.asarray(im, dtype="float64")
+                want_im = imf if origin == "none" else real_center(imf, origin, **copts)
         except Exception as e:
             ck.violation(dict(sig, clause="exception"), rep, f"{type(e).__name__}: {e}")
             continue
@@ -230,7 +234,7 @@ def oracle(ck: Check, tier, deep):
         elif seen.get("center") != (origin, copts):
             ck.violation(dict(sig, what="center_options"), rep, f"center_image received {seen.get('center')}")
         if t.IM.shape != want_im.shape or not np.array_equal(t.IM, want_im):
-            ck.violation(dict(sig, what="IM"), rep, "Transform.IM is not center_image(IM, origin, **center_options)")
+            ck.violation(dict(sig, what="IM"), rep, "Transform.IM is not center_image(float64(IM), origin, **center_options)")
         if t.transform.shape != t.IM.shape:
             ck.violation(dict(sig, what="shape"), rep, f"transform shape {t.transform.shape} != centred {t.IM.shape}")
         if any(cl["kw"] != topts for cl in stub.calls):
